@@ -83,6 +83,11 @@ pub struct Model {
     /// pending, which only a firewall repair (or a root that records them)
     /// carries out
     pub reexecuted: BTreeSet<u32>,
+    /// per node: the firewalls that were below it when it was last reached by
+    /// a completed request (a superset of what the engine recorded as its
+    /// transitive firewall set then); the engine repairs those when the node
+    /// is requested, whether or not the node still reaches them
+    pub recorded_fw: BTreeMap<u32, BTreeSet<u32>>,
 }
 
 impl Model {
@@ -265,6 +270,19 @@ impl<B: Backend> Runner<B> {
                 all_roots.push(m);
             }
         }
+        // ... including what they recorded when they were last reached (the
+        // nodes in between may have changed their reads since)
+        let mut i = 0;
+        while i < all_roots.len() {
+            if let Some(fws) = self.model.recorded_fw.get(&all_roots[i]) {
+                for f in fws {
+                    if !all_roots.contains(f) {
+                        all_roots.push(*f);
+                    }
+                }
+            }
+            i += 1;
+        }
         let roots: &[u32] = &all_roots;
         let mut now_all = BTreeSet::new();
         let mut reads_now = BTreeMap::new();
@@ -418,8 +436,15 @@ impl<B: Backend> Runner<B> {
                 let _ = o.node(*r);
                 o.memo.keys().copied().collect()
             };
+            let below: BTreeSet<u32> = self
+                .closure(*r)
+                .0
+                .into_iter()
+                .filter(|x| matches!(self.prog.nodes[*x as usize].kind, Kind::Fw | Kind::CyF))
+                .collect();
             for x in visited {
                 self.model.visited_epoch.insert(x, e);
+                self.model.recorded_fw.insert(x, below.clone());
             }
         }
     }
